@@ -4,7 +4,7 @@
 From Coq Require Import NArith ZArith List Bool.
 Import ListNotations.
 Require Import UV.Gen.Consts UV.Mcount.Model UV.Mcount.Forest UV.Mcount.PlainStep UV.Mcount.PlainProofs
-  UV.Mcount.Codec UV.Mcount.PlainMore UV.Mcount.Overflow.
+  UV.Mcount.Codec UV.Mcount.PlainMore UV.Mcount.Overflow UV.Mcount.Embed UV.Mcount.EmbedMore UV.Mcount.Check.
 Local Open Scope N_scope.
 
 (* Writer and readers agree on the record word: the hand-packed word of record_ret_stack decodes,
@@ -84,3 +84,20 @@ Theorem C02_depth_overflow_refuted :
             seen r <> (r_time r, type_code (r_type r), RECORD_MAGIC, r_depth r, r_addr r).
 Proof. exact depth_overflow_refuted. Qed.
 Print Assumptions C02_depth_overflow_refuted.
+
+(* Filtered recordings: for EVERY option set without a trace_on/trace_off trigger (any -F/-N/-C/-D/-t/-Z and
+   depth=/time=/size=/trace triggers, both instrumentation shapes) the stream written for a complete call
+   forest is the flattening of a forest embedded in the thread's call history: each recorded ENTRY/EXIT is the
+   one of a real call (address, entry and exit clock readings), in execution order, properly nested, with
+   depth = number of open recorded calls; calls are only ever left out as a whole. *)
+Theorem C02_filtered_trace_is_subhistory : forall c, no_switch c -> forall f,
+  all_ended f -> heights f <= max_stack c ->
+  exists g, emb g f /\ out (fst (exec c (flat_forest f) (init, []))) = flat_map (history 0) g.
+Proof. exact run_forest_emb. Qed.
+Print Assumptions C02_filtered_trace_is_subhistory.
+
+(* [ok_emb], the checker the correspondence applies to the implementation's streams, decides exactly that *)
+Theorem C02_subhistory_checker_exact : forall f l,
+  ok_emb f l = true <-> exists g, emb g f /\ l = map ideal (flat_map (history 0) g).
+Proof. exact ok_emb_exact. Qed.
+Print Assumptions C02_subhistory_checker_exact.
